@@ -621,8 +621,9 @@ func (p *Parser) ParsingIter() iter.Seq[*ParserReply] {
 		const depth0 int = 0
 		for {
 			expr, err = p.ParseExpression(depth0)
-			if err == nil && expr == SexpEnd && p.lexer.inOpenString() {
-				// the input ended at top level inside a "string": the text is unfinished
+			if err == nil && expr == SexpEnd && (p.lexer.inOpenString() || p.lexer.afterTilde()) {
+				// the input ended at top level inside a "string", or in a '~' without
+				// its operand (which would otherwise be dropped): the text is unfinished
 				p.sendMe.Err = ErrMoreInputNeeded
 				if !yield(p.sendMe) {
 					return
